@@ -3,13 +3,14 @@ import CpModel.Finalize
 /-!
   Driver for C06 (response framing).  One case per line, space-separated fields:
 
-    <tools> <page> <ct> <hcl> <hstream> <st> <body> <req>;<req>;…      hcl = N | <n> (handler's own Content-Length)
+    <tools> <page> <ct> <hcl> <hstream> <st> <body> <probe> <req>;<req>;…      hcl = N | <n> (handler's own Content-Length)
 
   tools   letters of e(ncode) g(zip) t(etags) c(aching) x(expires) f(latten) s(tream), or `-`
   page    `pt` (default template) | `pc:<hex>` (error_page.default returns these bytes)
   ct      html | plain | json | octet
   st      - | s<code> | e<code> | r<code> | x | i
   body    <K>:<chunk>,<chunk>…   K in B S N L G F X;  chunk = b<hex> | t<cp.cp…> | n<hex>/<hex>… | r
+  probe   - | <prio>:<act>:<once>   act = e<code> | r<code> | x | w<hex> (rewrite body) | s<code>
   req     <method>,<ae>,<inm>,<im>,<ac>,<ranges>   ranges = N | E | a-b/a-b…
 
   Output: one record per request joined by ` | `:
@@ -63,6 +64,22 @@ def parseSt (s : String) : Option HStatus :=
   else if s.startsWith "e" then (s.drop 1).toString.toNat?.map .raiseError
   else if s.startsWith "r" then (s.drop 1).toString.toNat?.map .raiseRedirect
   else none
+
+def parseProbe (s : String) : Option (Option (Nat × ProbeAct × Bool)) :=
+  if s == "-" then some none else
+  match s.splitOn ":" with
+  | [prio, act, once] => do
+    let p ← prio.toNat?
+    let o ← parseBool once
+    let a ← (if act == "x" then some (ProbeAct.raise .exc)
+             else if act.startsWith "e" then (act.drop 1).toString.toNat?.map (fun c => ProbeAct.raise (.httpError c))
+             else if act.startsWith "r" then (act.drop 1).toString.toNat?.map (fun c => ProbeAct.raise (.redirect c))
+             else if act.startsWith "s" then (act.drop 1).toString.toNat?.map ProbeAct.setStatus
+             else if act.startsWith "w" then
+               (Proto.unhex? (let t := (act.drop 1).toString; if t == "" then "-" else t)).map ProbeAct.rewrite
+             else none)
+    pure (some (p, a, o))
+  | _ => none
 
 def parseChunk (s : String) : Option Chunk :=
   if s == "r" then some .raise
@@ -162,9 +179,10 @@ def showObs (o : Obs) : String :=
 
 def step (line : String) : String :=
   match Proto.fields line with
-  | [tools, page, ct, hcl, hstream, st, body, reqs] =>
+  | [tools, page, ct, hcl, hstream, st, body, probe, reqs] =>
     let r : Option String := do
-      let t ← parseTools tools
+      let t0 ← parseTools tools
+      let t : Tools := { t0 with probe := ← parseProbe probe }
       let pg ← parsePage page
       let h : Handler := { shape := ← parseShape body, st := ← parseSt st, ct := ← parseCt ct,
                            setCL := ← Proto.optNat? hcl, setStream := ← parseBool hstream }
